@@ -202,6 +202,38 @@ def override_scenarios(ctx):
                             ', '.join(subset), pending, mk, rec.get('got'), rec.get('want')), case)
 
 
+def mempool_outage_scenarios(ctx):
+    """The node does not serve its mempool for one request while operations of the account are pending: whatever the client does then (give up, ask again),
+    a group that does reach the node carries the next counters."""
+    from ..opclient import Session, make_key
+    for mk in ('validated', 'applied'):
+        for pending in (1, 2):
+            for how, skip in (('autofill', 0), ('autofill', 1), ('autofill', 2), ('send', 0), ('send', 1), ('send', 2)):      # the outage hits the 1st / 2nd / 3rd mempool request of the call
+                # (fill() alone never looks at the mempool: the recorded finding about fill and pending operations)
+                s = Session(make_key('tz1'), chain0=CHAIN0, mempool_key=mk, root_ctx=())
+                for k_ in range(pending):
+                    s.send(s.build(1, 10 + k_))
+                g = s.groups[s.build(1, 1) - 1]
+                before = len(s.node.injections)
+                s.node.mempool_failures, s.node.mempool_skip = 1, skip
+                case = {'mempool_outage': True, 'pending': pending, 'how': how, 'skip': skip, 'mempool_key': mk}
+                try:
+                    if how == 'send':
+                        g.send()
+                    else:
+                        (g.autofill() if how == 'autofill' else g.fill()).sign().inject()
+                except Exception:   # noqa: giving up is fine
+                    pass
+                s.node.mempool_failures = 0
+                ctx.count(('outage', mk, pending, how, skip), nontrivial=True)
+                ctx.replayed += 1
+                for rec in s.node.injections[before:]:
+                    if rec.get('got') != rec.get('want'):
+                        ctx.mismatch('C25:mempool-outage:wrong-counters', '%s with %d operation(s) pending while the node refuses one mempool request (%s): a group reached the node with counters %s, the node demands %s' % (
+                            how, pending, mk, rec.get('got'), rec.get('want')), case)
+                        break
+
+
 def contract_call_scenarios(ctx):
     """The same histories entered through a contract interface: contract.default(..) is a call object; .as_transaction() builds a group, .autofill() on it
     is a fill that injects nothing (a cost preview), .send() fills and injects.  Each send carries the account's next counters."""
@@ -261,6 +293,7 @@ def run(ctx):
     bulk_scenarios(ctx)
     contract_call_scenarios(ctx)
     override_scenarios(ctx)
+    mempool_outage_scenarios(ctx)
     per_family = {}
     for st in iter_dump(r.dump):
         log, hist, f = st['log'], st['hist'], st['fam']
